@@ -1,6 +1,7 @@
 import McpModel.Base.Proto
 import McpModel.OAuth.Monitor
 import McpModel.OAuth.Challenge
+import McpModel.OAuth.NewHandler
 /-!
 Driver for E11 (C15).
 
@@ -88,6 +89,7 @@ def parsePrmResp (t : String) : Option (Resp PrmDoc) :=
   | ["S2"] => some .statusOther
   | ["C"] => some .wrongContentType
   | ["J"] => some .badJSON
+  | ["L"] => some .badJSON      -- larger than the 1 MiB limit: the truncated text does not decode
   | ["D", r, as] => do some (.doc { resource := ← parseUrl r, authServers := ← parseUrlList as })
   | _ => none
 
@@ -100,6 +102,7 @@ def parseAsmResp (t : String) : Option (Resp AsmDoc) :=
   | ["S2"] => some .statusOther
   | ["C"] => some .wrongContentType
   | ["J"] => some .badJSON
+  | ["L"] => some .badJSON      -- larger than the 1 MiB limit: the truncated text does not decode
   | ["D", iss, az, tk, rg, intro, others, flags] => do
     let fl := flags.toList
     some (.doc { issuer := ← parseUrl iss, authorizationEndpoint := ← parseUrl az, tokenEndpoint := ← parseUrl tk,
@@ -111,6 +114,7 @@ def parseAsmResp (t : String) : Option (Resp AsmDoc) :=
 def parseRegResp (t : String) : Option RegResp :=
   match t.splitOn "|" with
   | ["FT"] => some .fail | ["F5"] => some .fail | ["F4"] => some .fail | ["FJ"] => some .fail | ["F3"] => some .fail
+  | ["F4J"] => some .fail | ["FB"] => some .fail
   | ["R", hasId, urls, _method] => do some (.created (hasId == "1") (← parseUrlList urls))
   | _ => none
 
@@ -296,6 +300,71 @@ def hdrConsistent (c : Case) : Bool :=
            | "insufficient_scope" => ch.error == .insufficientScope
            | _ => ch.error == .other)
 
+/-! ### Handler construction records
+
+`new nil=<0|1> cimd=<-|phq> pre=<-|<idEmpty><n|0|1>> dcr=<-|<metaNil>:<apptype>:<id.kind,…|.>> fetcher=<0|1> rd=<-|id>`
+(`phq`: parses / https / has a path; secret `n` = no ClientSecretAuth, `1` = empty secret; apptype `u|n|w|o<k>`;
+kind `x|l|r|c`), observation `ok rd=<id> at=<-|apptype>` or `err=<class>`. -/
+
+def parseAppType (t : String) : Option AppType :=
+  if t == "u" then some .unset else if t == "n" then some .native else if t == "w" then some .web
+  else if t.startsWith "o" then (t.drop 1).toString.toNat?.map .other else none
+
+def showAppType : AppType → String
+  | .unset => "u" | .native => "n" | .web => "w" | .other k => s!"o{k}"
+
+def parseRedirect (t : String) : Option Redirect :=
+  match t.splitOn "." with
+  | [i, k] => do
+    let kind ← match k with
+      | "x" => some RedirKind.unparsable | "l" => some .webLoopback | "r" => some .webRemote | "c" => some .custom | _ => none
+    some { id := ← i.toNat?, kind := kind }
+  | _ => none
+
+def parseRaw (toks : List String) : Option RawConfig := do
+  let m := kvs toks
+  let get := fun k => m.lookup k
+  let cimd : Option CimdRaw ← match ← get "cimd" with
+    | "-" => some none
+    | t => match t.toList with
+      | [p, h, q] => some (some { parses := p == '1', https := h == '1', hasPath := q == '1' })
+      | _ => none
+  let pre : Option PreRaw ← match ← get "pre" with
+    | "-" => some none
+    | t => match t.toList with
+      | [e, sa] => some (some { clientIdEmpty := e == '1', secretAuth := if sa == 'n' then none else some (sa == '1'), issuer := .empty })
+      | _ => none
+  let dcr : Option DcrRaw ← match ← get "dcr" with
+    | "-" => some none
+    | t => match t.splitOn ":" with
+      | [mn, apt, rs] => do
+        let rl ← if rs == "." then some [] else (rs.splitOn ",").mapM parseRedirect
+        some (some { metadataNil := mn == "1", redirects := rl, appType := ← parseAppType apt })
+      | _ => none
+  let rd : Option Nat ← match ← get "rd" with
+    | "-" => some none
+    | t => t.toNat?.map some
+  some { isNil := (← get "nil") == "1", cimd := cimd, pre := pre, dcr := dcr, fetcher := (← get "fetcher") == "1", redirectURL := rd }
+
+def showNewErr : NewErr → String
+  | .nilConfig => "nil-config" | .noRegistration => "no-registration" | .noFetcher => "no-fetcher" | .cimdUrl => "cimd-url"
+  | .preInvalid => "pre-invalid" | .dcrNoMetadata => "dcr-no-metadata" | .dcrNoRedirects => "dcr-no-redirects"
+  | .redirectNotAllowed => "redirect-not-allowed" | .appTypeConflict => "app-type-conflict" | .noRedirect => "no-redirect"
+
+def showNew (c : RawConfig) : String :=
+  match newHandler c with
+  | .error e => s!"err={showNewErr e}"
+  | .ok h => s!"ok rd={h.redirect} at={match h.appType with | none => "-" | some t => showAppType t}"
+
+def newStep (toks : List String) (impl : String) : Verdict :=
+  match parseRaw toks with
+  | none => { model := "bad-op" }
+  | some c =>
+    { model := showNew c,
+      violated := if chkNew c (impl.startsWith "ok ") then
+          some "C15: handler_configuration: NewAuthorizationCodeHandler created a handler from an unusable configuration (no registration mode / no fetcher / client-id document URL not non-root https / invalid pre-registered credentials / redirect URL outside the registered ones / contradicting application type)"
+        else none }
+
 /-- The state of a case: the model handler with its attempts in flight (`CHandler`), the parsed record
 of every attempt in flight, and what the monitor remembers of the implementation's earlier rounds
 (issuers at which it registered dynamically). -/
@@ -351,6 +420,7 @@ def engine : Engine (Option HState) where
     | "www" :: hexes => (st, { model := wwwModel hexes })
     | ["wwwfuzz", _] =>
       (st, { model := fuzzOk, violated := if chkFuzz impl then some "C15: ParseWWWAuthenticate panics" else none })
+    | "new" :: rest => (st, newStep rest impl)
     | "auth" :: rest =>
       match parseCase none 0 rest with
       | none => (none, { model := "bad-op" })
